@@ -567,7 +567,12 @@ def execStmt (W : World Ω) : Nat → Stmt → St Ω → Option (Ctl × St Ω)
              | some (.next, st2) => some (.next, popSt st2 n)
              | some (.ret _, st2) => some (.next, popSt st2 n)
              | _ => none
-           else none
+           else
+             -- the callee keeps the closure for later (another goroutine runs it): an ordinary method call with the opaque
+             -- closure value as its argument
+             (match W.mcall r m [.ref "closure" 0] st1.heap st1.w with
+              | some (_, h, w) => some (.next, { st1 with heap := h, w := w })
+              | none => none)
          | _ => none)
       | _ => (evalExpr W fuel e st).map fun (_, st1) => (.next, st1)
     | .deferS e =>
